@@ -26,6 +26,19 @@ if TYPE_CHECKING:
 
 logger = get_logger(__name__)
 
+
+def _exception_text(exc: BaseException) -> str:
+    """Text of an exception raised by application code (handler, middleware).
+
+    str() of a foreign exception can itself raise (a broken __str__); the
+    error path must still be able to report the failure.
+    """
+    try:
+        return str(exc)
+    except Exception:
+        return type(exc).__name__
+
+
 # Connection timeout in seconds
 REQUEST_TIMEOUT = 30.0
 
@@ -388,11 +401,11 @@ class GeminiServerProtocol(asyncio.Protocol):
             logger.error(
                 "handler_error",
                 client_ip=client_ip,
-                error=str(e),
+                error=_exception_text(e),
                 exception_type=type(e).__name__,
             )
             self._send_error_response(
-                StatusCode.TEMPORARY_FAILURE, f"Server error: {str(e)}"
+                StatusCode.TEMPORARY_FAILURE, f"Server error: {_exception_text(e)}"
             )
             return
 
@@ -431,11 +444,11 @@ class GeminiServerProtocol(asyncio.Protocol):
             logger.error(
                 "async_handler_error",
                 client_ip=client_ip,
-                error=str(e),
+                error=_exception_text(e),
                 exception_type=type(e).__name__,
             )
             self._send_error_response(
-                StatusCode.TEMPORARY_FAILURE, f"Server error: {str(e)}"
+                StatusCode.TEMPORARY_FAILURE, f"Server error: {_exception_text(e)}"
             )
 
     def _handle_middleware_result(
@@ -468,7 +481,7 @@ class GeminiServerProtocol(asyncio.Protocol):
             logger.error(
                 "middleware_error",
                 client_ip=client_ip,
-                error=str(e),
+                error=_exception_text(e),
                 exception_type=type(e).__name__,
             )
             self._send_error_response(StatusCode.TEMPORARY_FAILURE, "Middleware error")
@@ -625,7 +638,7 @@ class GeminiServerProtocol(asyncio.Protocol):
             logger.error(
                 "middleware_error",
                 client_ip=client_ip,
-                error=str(e),
+                error=_exception_text(e),
                 exception_type=type(e).__name__,
             )
             self._send_error_response(StatusCode.TEMPORARY_FAILURE, "Middleware error")
@@ -684,9 +697,9 @@ class GeminiServerProtocol(asyncio.Protocol):
             logger.error(
                 "titan_upload_error",
                 client_ip=client_ip,
-                error=str(e),
+                error=_exception_text(e),
                 exception_type=type(e).__name__,
             )
             self._send_error_response(
-                StatusCode.TEMPORARY_FAILURE, f"Upload error: {str(e)}"
+                StatusCode.TEMPORARY_FAILURE, f"Upload error: {_exception_text(e)}"
             )
